@@ -460,3 +460,157 @@ theorem inLang_omission (F : Flows) (hF : F.all warnFree = true) (hO : noOmissio
     exact absurd hc2 h3
 
 end Gotlcp.Lemmas.Flow
+
+namespace Gotlcp.Lemmas.Flow
+open Gotlcp.Flow
+open Gotlcp.Model.Flow
+open Gotlcp.Spec.StandardFlow
+
+/-! ### flows with ignorable duplicates (DTLCP) as an acceptor -/
+
+abbrev FlowsI := List (List Item)
+
+def derivI (F : FlowsI) (k : Kind) : FlowsI :=
+  F.filterMap fun f => match f with
+    | (x, ign) :: xs => if k = x then some xs else if ign.contains k then some ((x, ign) :: xs) else none
+    | [] => none
+
+def specNextI (F : FlowsI) (k : Kind) : Outcome FlowsI :=
+  if k = .warningAlert then
+    let F' := F.filter (fun f => !f.isEmpty)
+    if F'.isEmpty then .fail else .retry F'
+  else
+    let F' := derivI F k
+    if F'.isEmpty then .fail else .goOn F' k.isHandshake
+
+def specAutoI : Auto FlowsI := { next := specNextI, accepting := fun F => F.contains [] }
+
+theorem matchItems_nil_word (f : List Item) (n : Nat) : matchItems f [] n = f.isEmpty := by
+  cases f <;> simp [matchItems]
+
+theorem anyI_isEmpty_eq_contains (F : FlowsI) : F.any (fun f => f.isEmpty) = F.contains [] := by
+  induction F with
+  | nil => rfl
+  | cons f fs ih =>
+    cases f with
+    | nil => simp
+    | cons x xs => simpa using ih
+
+theorem matchItems_warn (f : List Item) (ks : List Kind) (n : Nat) :
+    matchItems f (.warningAlert :: ks) n =
+      (!f.isEmpty && (decide (n + 1 ≤ maxIgnorable) && matchItems f ks (n + 1))) := by
+  cases f with
+  | nil => simp [matchItems]
+  | cons x xs => obtain ⟨a, ign⟩ := x; simp [matchItems]
+
+theorem matchItems_other (f : List Item) (k : Kind) (ks : List Kind) (n : Nat) (hk : k ≠ .warningAlert) :
+    matchItems f (k :: ks) n =
+      (match f with
+       | (x, ign) :: xs =>
+         if k = x then matchItems xs ks (if k.isHandshake then 0 else n)
+         else if ign.contains k then matchItems ((x, ign) :: xs) ks (if k.isHandshake then 0 else n) else false
+       | [] => false) := by
+  cases f with
+  | nil => simp [matchItems]
+  | cons x xs => obtain ⟨a, ign⟩ := x; simp [matchItems, hk]
+
+theorem anyI_filter_nonempty (F : FlowsI) (g : List Item → Bool) :
+    (F.filter (fun f => !f.isEmpty)).any g = F.any (fun f => !f.isEmpty && g f) := by
+  induction F with
+  | nil => rfl
+  | cons f fs ih =>
+    cases f with
+    | nil => simp [List.filter, ih]
+    | cons x xs => simp [List.filter, ih]
+
+theorem any_derivI (F : FlowsI) (k : Kind) (g : List Item → Bool) :
+    (derivI F k).any g = F.any (fun f => match f with
+      | (x, ign) :: xs => if k = x then g xs else if ign.contains k then g ((x, ign) :: xs) else false
+      | [] => false) := by
+  induction F with
+  | nil => rfl
+  | cons f fs ih =>
+    cases f with
+    | nil => simpa [derivI, List.filterMap] using ih
+    | cons x xs =>
+      obtain ⟨a, ign⟩ := x
+      by_cases hx : k = a
+      · simp only [derivI, List.filterMap, hx, if_true, List.any_cons] at ih ⊢
+        rw [ih]
+      · by_cases hi : ign.contains k = true
+        · simp only [derivI, List.filterMap, hx, if_false, hi, if_true, List.any_cons] at ih ⊢
+          rw [ih]
+        · simp only [derivI, List.filterMap, hx, if_false, hi, List.any_cons] at ih ⊢
+          simp only [Bool.false_eq_true, if_false, Bool.false_or]
+          rw [ih]
+
+theorem feedI_warn (F : FlowsI) (n : Nat) :
+    specAutoI.feed maxIgnorable (.run F n) .warningAlert =
+      (if (F.filter (fun f => !f.isEmpty)).isEmpty then .dead
+       else if n + 1 > maxIgnorable then .dead else .run (F.filter (fun f => !f.isEmpty)) (n + 1)) := by
+  simp only [Auto.feed, specAutoI, specNextI, if_true]
+  by_cases he : (F.filter (fun f => !f.isEmpty)).isEmpty = true
+  · simp [he]
+  · simp [he]
+
+theorem feedI_other (F : FlowsI) (n : Nat) (k : Kind) (hk : k ≠ .warningAlert) :
+    specAutoI.feed maxIgnorable (.run F n) k =
+      (if (derivI F k).isEmpty then .dead else .run (derivI F k) (if k.isHandshake then 0 else n)) := by
+  simp only [Auto.feed, specAutoI, specNextI, hk, if_false]
+  by_cases he : (derivI F k).isEmpty = true
+  · simp [he]
+  · simp [he]
+
+theorem specAutoI_run (w : List Kind) : ∀ (F : FlowsI) (n : Nat),
+    specAutoI.acceptingSt (specAutoI.runFrom maxIgnorable (.run F n) w) = F.any (fun f => matchItems f w n) := by
+  induction w with
+  | nil =>
+    intro F n
+    simp only [Auto.runFrom, List.foldl_nil, Auto.acceptingSt, specAutoI]
+    have : (fun f => matchItems f [] n) = (fun f : List Item => f.isEmpty) := by
+      funext f; exact matchItems_nil_word f n
+    rw [this]
+    exact (anyI_isEmpty_eq_contains F).symm
+  | cons k ks ih =>
+    intro F n
+    rw [runFrom_cons]
+    by_cases hk : k = .warningAlert
+    · subst hk
+      have hrhs : F.any (fun f => matchItems f (.warningAlert :: ks) n) =
+          (F.filter (fun f => !f.isEmpty)).any (fun f => decide (n + 1 ≤ maxIgnorable) && matchItems f ks (n + 1)) := by
+        rw [anyI_filter_nonempty]
+        congr 1
+        funext f
+        exact matchItems_warn f ks n
+      rw [hrhs, feedI_warn]
+      by_cases he : (F.filter (fun f => !f.isEmpty)).isEmpty = true
+      · rw [if_pos he, runFrom_dead, any_false_of_isEmpty _ _ he]
+        rfl
+      · rw [if_neg he]
+        by_cases hn : n + 1 > maxIgnorable
+        · have hle : ¬ (n + 1 ≤ maxIgnorable) := by omega
+          rw [if_pos hn, runFrom_dead]
+          simp [Auto.acceptingSt, hle]
+        · have hle : n + 1 ≤ maxIgnorable := by omega
+          rw [if_neg hn]
+          simp only [hle, decide_true, Bool.true_and]
+          exact ih _ _
+    · have hrhs : F.any (fun f => matchItems f (k :: ks) n) =
+          (derivI F k).any (fun f => matchItems f ks (if k.isHandshake then 0 else n)) := by
+        rw [any_derivI]
+        congr 1
+        funext f
+        exact matchItems_other f k ks n hk
+      rw [hrhs, feedI_other F n k hk]
+      by_cases he : (derivI F k).isEmpty = true
+      · rw [if_pos he, runFrom_dead, any_false_of_isEmpty _ _ he]
+        rfl
+      · rw [if_neg he]
+        exact ih _ _
+
+theorem specAutoI_correct (F : FlowsI) (w : List Kind) :
+    specAutoI.accepts maxIgnorable F w = inLangI F w := by
+  simp only [Auto.accepts, inLangI]
+  exact specAutoI_run w F 0
+
+end Gotlcp.Lemmas.Flow
